@@ -289,4 +289,53 @@ theorem reachable_inv (mem : Nat → Cell) (a : Nat) (ops : List Op) (hG : Good 
     Inv (run false (init mem) ops) :=
   (run_inv_base a (mem a).cur ops (init_inv mem) hG (Or.inr ⟨by simp [MockedAt, init], rfl⟩)).1
 
+/-! ## the hypotheses are satisfiable by non-trivial states
+
+An `int` variable holding 7 (address 0) and a nil `error` variable (address 1): look up, Set 1, look up again, Set 2;
+and for the interface variable: look up, Set a `*T` error.  These histories meet every hypothesis of the restore
+theorems, with a mock in place when Cancel/Reset is called. -/
+
+def exInt : Ty := ⟨1, .int, true, 1, []⟩
+def exErr : Ty := ⟨21, .iface, true, 21, [1]⟩
+def exPErr : Ty := ⟨24, .ptr, false, 24, [1]⟩
+def exMem : Nat → Cell := fun a => if a = 0 then ⟨exInt, some ⟨exInt, 7⟩⟩ else ⟨exErr, none⟩
+def exOps : List Op :=
+  [.look 0 false 0, .set 0 (some ⟨exInt, 1⟩), .look 0 false 0, .set 0 (some ⟨exInt, 2⟩),
+   .look 0 false 1, .set 1 (some ⟨exPErr, 3⟩)]
+
+theorem ex_good (a : Nat) : Good a (init exMem) exOps := by
+  simp [Good, exOps, Disc, Owner, UeTyped, step, look, setOp, doSet, init, upd, exMem, rset, valueOf, MockedAt,
+    exInt, exErr, exPErr, assignable, implements, Ty.isIface, conv]
+  refine ⟨?_, ?_, ?_⟩ <;> intro j hj <;> by_cases h0 : j = 0 <;> simp_all
+
+/-- the variables are mocked (hold 2 and the error) right before Cancel/Reset … -/
+example : ((run false (init exMem) exOps).mem 0).cur = some ⟨exInt, 2⟩ ∧
+    ((run false (init exMem) exOps).mem 1).cur = some ⟨exPErr, 3⟩ ∧
+    MockedAt (run false (init exMem) exOps) 0 0 ∧ MockedAt (run false (init exMem) exOps) 1 1 := by
+  simp [run, exOps, step, look, setOp, doSet, init, upd, exMem, rset, valueOf, MockedAt,
+    exInt, exErr, exPErr, assignable, implements, Ty.isIface, conv]
+
+/-- … and `restore_first_cancel` applies to both: 7 and the nil interface come back. -/
+example : ((step false (run false (init exMem) exOps) (.cancel 0)).1.mem 0).cur = some ⟨exInt, 7⟩ ∧
+    ((step false (run false (init exMem) exOps) (.cancel 1)).1.mem 1).cur = none := by
+  constructor
+  · refine (restore_first_cancel (init exMem) 0 exOps 0 (init_inv _) (by simp [MockedAt, init]) (ex_good 0) ?_ ?_).2
+    · intro j
+      simp [run, exOps, step, look, setOp, doSet, init, upd, exMem, rset, valueOf, MockedAt,
+        exInt, exErr, exPErr, assignable, implements, Ty.isIface, conv]
+      by_cases h0 : j = 0
+      · simp [h0]
+      · by_cases h1 : j = 1 <;> simp [h0, h1]
+    · simp [run, exOps, step, look, setOp, doSet, init, upd, exMem, rset, valueOf,
+        exInt, exErr, exPErr, assignable, implements, Ty.isIface, conv]
+  · refine (restore_first_cancel (init exMem) 1 exOps 1 (init_inv _) (by simp [MockedAt, init]) (ex_good 1) ?_ ?_).2
+    · intro j
+      simp [run, exOps, step, look, setOp, doSet, init, upd, exMem, rset, valueOf, MockedAt,
+        exInt, exErr, exPErr, assignable, implements, Ty.isIface, conv]
+      by_cases h0 : j = 0
+      · simp [h0]
+      · by_cases h1 : j = 1 <;> simp [h0, h1]
+    · simp [run, exOps, step, look, setOp, doSet, init, upd, exMem, rset, valueOf,
+        exInt, exErr, exPErr, assignable, implements, Ty.isIface, conv]
+
 end C08
